@@ -134,7 +134,7 @@ pub trait TyVisitor {
     fn visit<T: TypeInfo + ?Sized + 'static>(self) -> Self::Out;
 }
 
-pub const N_SHAPES: u8 = 60;
+pub const N_SHAPES: u8 = 64;
 const DELTAS: [usize; 3] = [0, 1, 5];
 
 fn with_shape_jk<const J: usize, const K: usize, V: TyVisitor>(shape: u8, v: V) -> V::Out {
@@ -197,6 +197,11 @@ fn with_shape_jk<const J: usize, const K: usize, V: TyVisitor>(shape: u8, v: V) 
         57 => v.visit::<Option<&'static str>>(),
         58 => v.visit::<[N<J>; 4]>(),
         59 => v.visit::<(u8, N<J>)>(),
+        // compact forms of family nodes and aliases (the Compact impl asks only for type info)
+        60 => v.visit::<scale::Compact<N<J>>>(),
+        61 => v.visit::<Option<scale::Compact<N<J>>>>(),
+        62 => v.visit::<scale::Compact<A<J>>>(),
+        63 => v.visit::<(scale::Compact<N<J>>, N<K>)>(),
         _ => v.visit::<u64>(),
     }
 }
@@ -390,6 +395,10 @@ pub fn ty_of(t: &Target) -> Ty {
         57 => Ty::Option(b(Ty::Ref(b(Ty::Str)))),
         58 => Ty::ArrN(4, b(x())),
         59 => Ty::Tup(vec![Ty::U8, x()]),
+        60 => Ty::Compact(b(x())),
+        61 => Ty::Option(b(Ty::Compact(b(x())))),
+        62 => Ty::Compact(b(Ty::A(j))),
+        63 => Ty::Tup(vec![Ty::Compact(b(x())), y()]),
         _ => Ty::U64,
     }
 }
